@@ -530,7 +530,9 @@ def gen_sequence(ctx, supported, rng, length, run_prefix):
             spec = w.common()
             spec.update({"client": client, "token": rng.choice([k["token"]] * 9 + ["unknown", w.temps[0]["token"]]),
                          "http": rng.choice(["GET", "POST"]),
-                         "extra_query": rng.choice([[], [("q", "a b"), ("z", "1")], [("a", "x+y&z=1")]]),
+                         "extra_query": rng.choice([[], [("q", "a b"), ("z", "1")], [("a", "x+y&z=1")],
+                                                    # a name more than once in the query: every occurrence is signed (RFC 5849 3.4.1.3.1)
+                                                    [("a", "1"), ("a", "2")], [("a", "2"), ("b", ""), ("a", "1"), ("a", "1")]]),
                          "extra_body": rng.choice([[], [("f", "v 1")], [("b", "2"), ("a", "~")]])})
             d = w.deviate(spec, "access")
             sign_defaults(spec, client, k["secret"])
@@ -738,8 +740,14 @@ def golden(ctx, supported):
                 s["ts"] = str(clock[0] + 200000)
             if dev == "access-near-future-ts":
                 s["ts"] = str(clock[0] + 290)
+            if dev in ("access-repeated-query", "access-appended-unsigned"):
+                s["extra_query"] = [("a", "1"), ("a", "2"), ("b", "")] if dev == "access-repeated-query" else [("a", "1")]
             sign_defaults(s, "c1", k[2])
             acc = {"op": "access", "req": build_req(ctx, "access", s)}
+            if dev == "access-appended-unsigned":
+                # a second value for a signed name, added to the URI after signing: not what was signed
+                acc["req"]["uri"] += "&a=injected"
+                acc["req"]["query"].append(["a", "injected"])
             ops.append(acc)
             labels.append("access:" + dev)
             if dev in ("replay-access", "access-future-ts", "access-near-future-ts"):
@@ -760,7 +768,7 @@ def golden(ctx, supported):
 
     for dev in ("none", "unapproved", "denied", "other-client", "wrong-verifier", "wrong-temp-secret", "exchange-twice", "replay-exchange",
                 "tick-temp-expired", "access-wrong-token-secret", "replay-access", "access-other-client", "access-future-ts",
-                "access-near-future-ts", "initiate-near-future-replay"):
+                "access-near-future-ts", "initiate-near-future-replay", "access-repeated-query", "access-appended-unsigned"):
         r = flow(dev)
         if r:
             seqs.append((dev, r[0], r[1]))
